@@ -13,16 +13,18 @@ pub fn run_c17(tier: Tier) -> i32
     use crate::c17::*;
     let t0 = Instant::now();
     let deadline = deadline_for(tier, t0);
-    let (nesting, depth) = if tier == Tier::Quick { (2, 4) } else { (3, 6) };
+    let (nesting, depth) = if tier == Tier::Quick { (2, 3) } else { (3, 5) };
     let en = enabled17(nesting);
     let stats = bfs::<Op17, Key17>(depth, Some(deadline), threads(), &en, &run17);
     if stats.states < 10 { eprintln!("machinery error: vacuous C17 search"); return 2; }
     let run = summarize("syscall-family", stats);
     finish("C17", tier, t0, vec![run], json!({"nesting_levels": nesting, "depth": depth}),
-        "all sequences (to the stated depth) of calls through syscall(f|g), named_syscall(n0|n1, f|g), spawned_syscall(id0|id1|missing), \
+        "all sequences (to the stated depth) of calls through syscall(f|g), named_syscall(n0|n1, f|g), spawned_syscall(id0|id1|id2|missing) \
+         with ordinary systems f, g and an exclusive system x (Local + Added<Marker> query state), \
          each optionally making a chain of nested calls from the commands it queues (same key again, other keys, a \
          running spawned system), against a reference map key -> counter: every call must run its system exactly \
-         once with its input, return counter*1000+input, have applied its queued commands (and the nested calls they \
+         once with its input, see its own Local counter and its own change-detection cursor (number of markers added \
+         since the key's previous run), return counter*1000+input, have applied its queued commands (and the nested calls they \
          make) before returning; missing / running spawned systems return Err and run nothing; deduplicated by the \
          counter map",
         vec![
